@@ -17,61 +17,213 @@ type propertyDef struct {
 
 var commonTrusted = []string{
 	"go/types, go/ssa, go/packages of golang.org/x/tools v0.29.0",
-	"decoded YAML trees are acyclic map[string]any / []any / scalar trees (yaml.v3)",
-	"frozen justifications in /verif/expectations.json (each carries its reason)",
+	"decoded YAML trees are finite, acyclic trees of map[string]any / []any / scalars (yaml.v3)",
+	"frozen justifications in /verif/expectations.json (each carries its reason) and open entries of /verif/known_findings.json",
 }
+
+var commonAssumptions = []string{
+	"every verdict is a structural necessary condition decided from the source; the behavioural statement itself (value equalities, all interleavings) is not decided",
+	"dependencies are analysed through their export data only (quick tier)",
+}
+
+var allTables = []string{rules.TMerge, rules.TUnique, rules.TTransform, rules.TDefaults, rules.TCast, rules.TResolvers, rules.TChecks}
 
 var properties = map[string]*propertyDef{}
 
-func init() {
-	properties["T00"] = &propertyDef{Decides: "debug", Run: func(c *rules.Ctx) []report.Obligation {
-		var o []report.Obligation
-		o = append(o, c.A1("A1", "override.mergeSpecials", "override.unique", "transform.transformers", "transform.defaultValues", "loader.interpolateTypeCastMapping", "paths.relativePathsResolver.resolvers", "validation.checks")...)
-		o = append(o, c.A2("A2", "override.mergeSpecials", "override.unique", "transform.transformers", "transform.defaultValues", "loader.interpolateTypeCastMapping", "paths.relativePathsResolver.resolvers", "validation.checks", "loader.omitempty", "loader.userDefinedKeys")...)
-		o = append(o, c.A4("A4")...)
-		o = append(o, c.A5("A5")...)
-		o = append(o, c.A6("A6")...)
-		o = append(o, c.A7("A7")...)
-		o = append(o, c.A9("A9")...)
-		o = append(o, c.A10("A10")...)
-		o = append(o, c.A3("A3")...)
-		return o
-	}}
-	properties["T14"] = &propertyDef{Decides: "debug", Run: func(c *rules.Ctx) []report.Obligation { return c.IMMDerive("IMM") }}
-	properties["T19"] = &propertyDef{Decides: "debug", Run: func(c *rules.Ctx) []report.Obligation { return c.GLOB("GLOB") }}
-	properties["T13"] = &propertyDef{Decides: "debug", Run: func(c *rules.Ctx) []report.Obligation {
-		o := append(c.R3("R3", "graph", "types"), c.FanOut("FAN")...)
-		o = append(o, c.TRV("TRV")...)
-		o = append(o, c.ROnly("RONLY", "graph", []string{"graph.walk"}, map[string]bool{"traversal.status": true, "traversal.results": true})...)
-		return o
-	}}
-	properties["T20"] = &propertyDef{Decides: "debug", Run: func(c *rules.Ctx) []report.Obligation { return c.SEC("SEC") }}
-	properties["T02"] = &propertyDef{Decides: "debug", Run: func(c *rules.Ctx) []report.Obligation { return c.ORD("ORD", "LOAD", "RENDER", "SELECT", "GRAPH") }}
-	properties["T01"] = &propertyDef{Decides: "debug", Run: func(c *rules.Ctx) []report.Obligation {
-		o := c.XOR("XOR")
-		o = append(o, c.PIPE("PIPE", nil)...)
-		o = append(o, c.ERR("ERR", "LOAD")...)
-		o = append(o, c.CYC("CYC")...)
-		o = append(o, c.TERM("TERM", "LOAD", "RENDER", "SELECT", "GRAPH", "DOTENV", "TEMPLATE")...)
-		return o
-	}}
-	properties["T11"] = &propertyDef{Decides: "debug", Run: func(c *rules.Ctx) []report.Obligation {
-		o := c.DFLT("DFLT", []string{"transform.SetDefaultValues", "transform.Canonical", "loader.Normalize"}, []string{"loader.load"})
-		o = append(o, c.RangeGuard("LAY-1", "types.(Mapping).Merge", true)...)
-		o = append(o, c.RangeGuard("LAY-1", "types.(MappingWithEquals).Resolve", true)...)
-		o = append(o, c.RangeGuard("LAY-1", "cli.WithOsEnv", true)...)
-		o = append(o, c.RangeGuard("LAY-1", "types.(MappingWithEquals).OverrideBy", false)...)
-		return o
-	}}
-	properties["T05"] = &propertyDef{Decides: "debug", Run: func(c *rules.Ctx) []report.Obligation { return append(c.EXT("EXT"), c.INC("INC")...) }}
-	properties["T07"] = &propertyDef{Decides: "debug", Run: func(c *rules.Ctx) []report.Obligation { return append(c.TPL("TPL"), c.INV("INV")...) }}
-	properties["C01"] = &propertyDef{
-		Decides:    "no unchecked type assertion on input-derived data in code reachable from the load entry points outside the proved / justified / known set (PANIC-TA)",
-		NotDecided: "termination, stack bounds, nil dereferences, panics inside dependencies",
-		Rules:      []string{"PANIC-TA"},
-		Trusted:    commonTrusted,
-		Run: func(c *rules.Ctx) []report.Obligation {
-			return c.PanicTA("PANIC-TA", "LOAD")
-		},
+func cat(lists ...[]report.Obligation) []report.Obligation {
+	var out []report.Obligation
+	for _, l := range lists {
+		out = append(out, l...)
 	}
+	return out
+}
+
+func stageIn(names ...string) func(rules.Stage) bool {
+	return func(s rules.Stage) bool {
+		for _, n := range names {
+			if s.Callee == n || (s.Callee == "" && s.Method == n) {
+				return true
+			}
+		}
+		return false
+	}
+}
+
+func def(id string, d *propertyDef) {
+	if d.Trusted == nil {
+		d.Trusted = commonTrusted
+	}
+	d.Assumptions = append(append([]string{}, commonAssumptions...), d.Assumptions...)
+	properties[id] = d
+}
+
+func init() {
+	def("C01", &propertyDef{
+		Decides:    "in code reachable from the load entry points: (1) every unchecked type assertion, index and slice expression is proved safe, justified, or a listed finding (PANIC-TA, PANIC-IDX, PANIC-EXPL, lemma TAB-L1); (2) every recursive call cycle is a structural descent on a YAML tree or has a checked guard, every condition-less loop is inventoried (TERM, CYC); (3) the cycle guards for extends, include, aliases and depends_on are present, dominate the recursion they protect and return errors (CYC); (4) errors from reading referenced files are propagated (ERR); (5) every return of the load chain is project-xor-error (XOR); (6) each pipeline stage propagates its error and schema validation is wired after every merged document unless SkipValidation (PIPE).",
+		NotDecided: "termination and stack bounds themselves (TERM inventories arguments); nil-map writes and nil dereferences; panics inside dependencies; that an error names the missing file; recursion through function values (template substitution) is not in the static call cycles.",
+		Rules:      []string{"PANIC-TA", "PANIC-IDX", "PANIC-EXPL", "TAB-L1", "TERM", "CYC", "ERR", "XOR", "PIPE"},
+		Run: func(c *rules.Ctx) []report.Obligation {
+			return cat(c.PanicTA("PANIC-TA", "LOAD"), c.PanicIDX("PANIC-IDX", "LOAD"), c.PanicExpl("PANIC-EXPL", "LOAD"), c.TabL1("TAB-L1"),
+				c.TERM("TERM", "LOAD"), c.CYC("CYC"), c.ERR("ERR", "LOAD"), c.XOR("XOR"), c.PIPE("PIPE", nil))
+		},
+	})
+	def("C02", &propertyDef{
+		Decides:    "(1) the seven first-match rule tables have pairwise non-overlapping patterns (A1); (2) no range over a map in code reachable from load / render has an order-sensitive effect that is not sorted, keyed by the iteration key, owned by the iteration value or an error-only exit (ORD); (3) no package-level variable is written after init (GLOB).",
+		NotDecided: "determinism of dependencies (yaml/json encoders sorting keys is trusted); OS and file-system nondeterminism; the order in which listeners / visitors are called; which error message is returned when several entries are invalid.",
+		Rules:      []string{"A1", "ORD", "GLOB"},
+		Run: func(c *rules.Ctx) []report.Obligation {
+			return cat(c.A1("A1", allTables...), c.ORD("ORD", "LOAD", "RENDER"), c.GLOB("GLOB"))
+		},
+	})
+	def("C03", &propertyDef{
+		Decides:    "form coverage: for every attribute path of schema/compose-spec.json and every YAML kind the schema admits there, the code that consumes it has an arm for that kind: the canonical transformer registered for the path, else the custom decoder of the model type, else the plain Go kind under strict mapstructure + the repo's cast hook (A3); every schema attribute has a model field (A7); every transformer row denotes a schema path (A2).",
+		NotDecided: "that two spellings produce equal values: port-range pairing, bind-vs-volume classification, KEY=VALUE splitting, durations, byte sizes and shell-word splitting are value-level grammars; rejection of near-miss strings.",
+		Rules:      []string{"A3", "A7", "A2"},
+		Run: func(c *rules.Ctx) []report.Obligation {
+			return cat(c.A3("A3"), c.A7("A7"), c.A2("A2", rules.TTransform))
+		},
+	})
+	def("C04", &propertyDef{
+		Decides:    "merge coverage (A4): every attribute below services/networks/volumes/secrets/configs that the schema lets be spelled as list-or-mapping or string-or-list has a converting merger; every uniqueItems list is de-duplicated after the append (unicity indexer, mapping-producing or replacing merger); command, entrypoint and healthcheck.test are bound to the replacing merger; each indexer has an arm for every item kind. The two tables are exclusive and have no dead rows (A1, A2). Stage order Apply(!reset) < Merge < EnforceUnicity < validate < Canonical < EnforceUnicity holds on every path and each stage's error is propagated (PIPE); every YAML document of a file runs through the pipeline (MULTIDOC).",
+		NotDecided: "the merged values themselves; `!reset` inside sequences; that what a later file does not mention is preserved.",
+		Rules:      []string{"A4", "A1", "A2", "PIPE", "MULTIDOC"},
+		Run: func(c *rules.Ctx) []report.Obligation {
+			return cat(c.A4("A4"), c.A1("A1", rules.TMerge, rules.TUnique), c.A2("A2", rules.TMerge, rules.TUnique),
+				c.PIPE("PIPE", stageIn("Apply", "override.Merge", "override.EnforceUnicity", "schema.Validate", "transform.Canonical", "loader.OmitEmpty")), c.MULTIDOC("MULTIDOC"))
+		},
+	})
+	def("C05", &propertyDef{
+		Decides:    "in the function that calls override.ExtendService: the base is a fresh deep clone (ownership analysis of deepClone), every return of the merged service is dominated by delete(merged,\"extends\") and by the memoising store, missing bases have error returns, the other file is loaded with ResolvePaths=false and resolved once against loader.Dir(refPath) on every success path, ApplyExtends stores the result for every service (EXT); the recursion is guarded by a successful cycleTracker.Add (CYC).",
+		NotDecided: "that the result equals base-then-local by the override rules (merge values); per-attribute path anchoring.",
+		Rules:      []string{"EXT", "CYC"},
+		Run: func(c *rules.Ctx) []report.Obligation {
+			return cat(c.EXT("EXT"), rules.Only(c.CYC("CYC"), "extends ::"))
+		},
+	})
+	def("C06", &propertyDef{
+		Decides:    "import stores a resource only when absent, differing redefinitions return an error (INC-1); the resource kinds imported / named / rendered equal the resource maps of types.Project (A10); the include chain is compared, extended and handed to the nested load (CYC); the nested load works on cloned options with ResolvePaths, SkipNormalization and SkipConsistencyCheck forced, its environment is Clone(parent).Merge(env file) (INC-4); `include` is deleted and the nested model imported on every success path (INC-5); included env_file errors are propagated (ERR).",
+		NotDecided: "equivalence with the pasted model; directory anchoring values.",
+		Rules:      []string{"INC", "A10", "CYC", "ERR"},
+		Run: func(c *rules.Ctx) []report.Obligation {
+			return cat(c.INC("INC"), c.A10("A10"), rules.Only(c.CYC("CYC"), "include ::"), rules.Only(c.ERR("ERR", "LOAD"), "loader.ApplyInclude ::"))
+		},
+	})
+	def("C07", &propertyDef{
+		Decides:    "the operator table, the operator class of the braced-substitution regex and the separator each bound function partitions on agree row by row (TPL-1); defaults, replacements and error messages go through Substitute (TPL-2); no value obtained from the variable mapping flows back into the template argument of Substitute*/ReplaceAllStringFunc (TPL-3); an empty name yields InvalidTemplateError (TPL-4); index/slice/assertion safety in packages template and interpolation (PANIC-IDX, PANIC-TA).",
+		NotDecided: "the semantics of each operator (set/unset/empty tables), brace matching, first-operator-wins, verbatim copying of literal text: value-level. This is the narrowest claim of the set.",
+		Rules:      []string{"TPL", "PANIC-IDX", "PANIC-TA"},
+		Run: func(c *rules.Ctx) []report.Obligation {
+			return cat(c.TPL("TPL"), c.PanicIDX("PANIC-IDX", "TEMPLATE"), c.PanicTA("PANIC-TA", "TEMPLATE"))
+		},
+	})
+	def("C08", &propertyDef{
+		Decides:    "recursiveInterpolate substitutes only in the string arm, stores mapping values under the unchanged range key and returns other scalars unchanged (INT-1); for every schema path that admits a string beside a typed scalar and whose model type is a Go scalar, a string is convertible: cast-table row of a fitting kind, decode-time hook covering the Go kind, or a decoder with a string arm, and every cast row names an existing path of a fitting kind (A5); the cast table is exclusive (A1).",
+		NotDecided: "`$$` escaping equivalence; that both mechanisms convert a text to the same value; error text naming the path.",
+		Rules:      []string{"INT-1", "A5", "A1"},
+		Run: func(c *rules.Ctx) []report.Obligation {
+			return cat(c.INT1("INT-1"), c.A5("A5"), c.A1("A1", rules.TCast))
+		},
+	})
+	def("C09", &propertyDef{
+		Decides:    "every model field has equal yaml and json keys (or json \"-\"); a type has both or neither of MarshalYAML/MarshalJSON; the kind a custom MarshalYAML emits is admitted by the schema where the type is used (A6); every schema attribute has a model field (A7); Project.MarshalJSON enumerates the resource kinds of the struct (A10); renderers and the parsers that read them back agree on their literal separators and host lists are sorted (CODEC).",
+		NotDecided: "equality of the reloaded project; byte-identity of a second rendering beyond map order.",
+		Rules:      []string{"A6", "A7", "A10", "CODEC"},
+		Run: func(c *rules.Ctx) []report.Obligation {
+			return cat(c.A6("A6"), c.A7("A7"), c.A10("A10"), c.CODEC("CODEC"))
+		},
+	})
+	def("C10", &propertyDef{
+		Decides:    "checkConsistency has an error return that depends on the model fields of each of the 20 rules of the statement (INV) and ends in graph.CheckCycle; searchCycle is guarded by path membership and errors on a hit (CYC); checkConsistency runs unless SkipConsistencyCheck and validation.Validate unless SkipValidation, errors propagated (PIPE); validation.checks rows denote schema paths and are exclusive (A1, A2).",
+		NotDecided: "that each condition is the right condition (an inverted comparison survives); acceptance implies consistency for fragments arriving through override / extends / include.",
+		Rules:      []string{"INV", "CYC", "PIPE", "A1", "A2"},
+		Run: func(c *rules.Ctx) []report.Obligation {
+			return cat(c.INV("INV"), rules.Only(c.CYC("CYC"), "depends_on ::"), c.PIPE("PIPE", stageIn("loader.checkConsistency", "validation.Validate")),
+				c.A1("A1", rules.TChecks), c.A2("A2", rules.TChecks))
+		},
+	})
+	def("C11", &propertyDef{
+		Decides:    "in everything reachable from SetDefaultValues, Canonical and Normalize every update of a map the function did not create is guarded by an absence test, an alias test, derives from the previous value, or is the current entry of a range (DFLT); SetDefaultValues and Normalize are gated by their flags and propagate errors (PIPE); the defaultValues rows denote schema paths (A2).",
+		NotDecided: "that the default values are the specification's (\"tcp\", \"ingress\", <project>_<key>); that `default` is added iff some service uses it.",
+		Rules:      []string{"DFLT", "PIPE", "A2"},
+		Run: func(c *rules.Ctx) []report.Obligation {
+			return cat(c.DFLT("DFLT", []string{"transform.SetDefaultValues", "transform.Canonical", "loader.Normalize"}, []string{"loader.load"}),
+				c.PIPE("PIPE", stageIn("transform.SetDefaultValues", "loader.Normalize")), c.A2("A2", rules.TDefaults))
+		},
+	})
+	def("C12", &propertyDef{
+		Decides:    "each path-bearing attribute named by the statement matches exactly one resolver row and no resolver sits on another attribute (A9); resolver patterns are exclusive and denote schema paths (A1, A2); each origin resolves against its own base: main files against config.WorkingDir gated by ResolvePaths, included projects against loader.Dir / project_directory (ORIGIN), extended files against loader.Dir(refPath) with the nested load not resolving (EXT-5).",
+		NotDecided: "absolute / remote / Windows detection, `~` expansion, idempotence: value-level string predicates.",
+		Rules:      []string{"A9", "A1", "A2", "ORIGIN", "EXT-5", "PIPE"},
+		Run: func(c *rules.Ctx) []report.Obligation {
+			return cat(c.A9("A9"), c.A1("A1", rules.TResolvers), c.A2("A2", rules.TResolvers), c.ORIGIN("ORIGIN"), rules.OnlyRule(c.EXT("EXT"), "EXT-5"),
+				c.PIPE("PIPE", stageIn("paths.ResolveRelativePaths")))
+		},
+	})
+	def("C13", &propertyDef{
+		Decides:    "the spawn in visit is gated by ready then enter; in the spawned closure the visitor precedes done, done precedes the hand-off send, and every exit sends (TRV-1/2); ready returns true only after the loop over all dependencies and the direction tables are mirror images (TRV-4); vertexVisited is stored only in done, enter is a test-and-set (TRV-5); status and results are accessed only under the mutex, in the constructor or after the join (R3); walk returns eg.Wait() after any spawn, channel capacity is len-derived with one send per closure (FAN); the cycle error returns before walk (TRV-7); the errgroup limit is maxConcurrency + the coordinator (TRV-10); fields of graph/vertex/Options are not written in the concurrent phase (RONLY); the traversal does not write through the *Project argument (IMM-I1).",
+		NotDecided: "liveness under every completion order, exactly-once, the interleaving space itself: the domain of model checking / schedule exploration.",
+		Rules:      []string{"TRV", "R3", "FAN", "RONLY", "IMM"},
+		Run: func(c *rules.Ctx) []report.Obligation {
+			return cat(c.TRV("TRV"), c.R3("R3", "graph"), c.FanOut("FAN", "graph"),
+				c.ROnly("RONLY", "graph", []string{"graph.walk"}, map[string]bool{"traversal.status": true, "traversal.results": true}), c.IMMGraph("IMM"))
+		},
+	})
+	def("C14", &propertyDef{
+		Decides:    "for every exported method of types.Project (found from the method set) no store, map update, delete, append, copy or writing callee is applied to memory owned by the receiver (I1), and no value owned by the receiver is stored into memory that reaches a returned *Project (I2); values handed to caller-supplied callbacks are copies. The analysis runs through the generated deep-copy code, so a field copied shallowly there makes every derivation fail I2.",
+		NotDecided: "that the result carries every field not affected by the operation beyond copy completeness; opaque extension payloads (exempt by the statement).",
+		Rules:      []string{"IMM-I1", "IMM-I2"},
+		Run: func(c *rules.Ctx) []report.Obligation {
+			return c.IMMDerive("IMM")
+		},
+	})
+	def("C15", &propertyDef{
+		Decides:    "WithProfiles ranges over AllServices() and stores every service on exactly one edge of HasProfile into the map assigned to Services resp. DisabledServices (PART-1); WithServicesDisabled records the service in DisabledServices before deleting it from Services, under the presence test, and deletes DependsOn[name] in all remaining services (PART-2, DEP); WithSelectedServices keeps or disables every service (PART-3); no map range in the selection operations has an order-sensitive effect (ORD).",
+		NotDecided: "the profile predicate, the dependency closure on arbitrary graphs, pruning exactly the referenced resources: set-valued semantics.",
+		Rules:      []string{"PART", "ORD"},
+		Run: func(c *rules.Ctx) []report.Obligation {
+			return cat(c.PART("PART"), c.ORD("ORD", "SELECT"))
+		},
+	})
+	def("C16", &propertyDef{
+		Decides:    "OverrideBy writes unconditionally, Resolve only valueless keys (LAY-1); env/label files are applied in slice order onto a fresh accumulator and the service's own entries are the argument of the last OverrideBy, whose result is stored (LAY-2); the lookup handed to the env-file parser reads the accumulator then the project environment (LAY-3); file references are dropped only under the discard flag (LAY-4); loadEnvFile returns (nil,nil) only for a missing, not-required file (LAY-gate).",
+		NotDecided: "dotenv semantics, cross-references between layers, that discarding removes only the file references.",
+		Rules:      []string{"LAY"},
+		Run: func(c *rules.Ctx) []report.Obligation {
+			return cat(c.LAY("LAY"), c.RangeGuard("LAY-1", "types.(MappingWithEquals).OverrideBy", false), c.RangeGuard("LAY-1", "types.(MappingWithEquals).Resolve", true))
+		},
+	})
+	def("C17", &propertyDef{
+		Decides:    "name precedence in withNamePrecedenceLoad (explicit, COMPOSE_PROJECT_NAME, directory) with the right imperative flags (NAME-1); projectName validates an imperative name without consulting files, exports the name on every exit, interpolates (unless SkipInterpolation) and normalises the file name, uses it only when non-empty, last file wins (NAME-2); load rejects an empty name, WithName rejects non-normal names (NAME-3); WithOsEnv and Mapping.Merge write only absent keys, WithEnv and later .env files overwrite, the .env lookup consults the current environment first (ENV).",
+		NotDecided: "the regex itself, directory-name normalisation results, the option call order chosen by the caller.",
+		Rules:      []string{"NAME", "ENV"},
+		Run: func(c *rules.Ctx) []report.Obligation {
+			return cat(c.NAME("NAME"), c.RangeGuard("ENV", "cli.WithOsEnv", true), c.RangeGuard("ENV", "types.(Mapping).Merge", true),
+				c.RangeGuard("ENV", "cli.WithEnv$1", false), c.RangeGuard("ENV", "dotenv.GetEnvFromFile", false))
+		},
+	})
+	def("C18", &propertyDef{
+		Decides:    "every index and slice expression and every unchecked assertion reachable from the exported functions of package dotenv (and the part of template they reach) is in bounds for every byte string (PANIC-IDX, PANIC-TA, PANIC-EXPL); recursions and condition-less loops are inventoried (TERM); the quoted-value scan succeeds only at the matching quote and every exit after the scan carries an error, an invalid key rune is an error (ERRRET).",
+		NotDecided: "that the returned map is the grammar's (quoting, escapes, inline comments, lookup precedence): needs a reference evaluator.",
+		Rules:      []string{"PANIC-IDX", "PANIC-TA", "PANIC-EXPL", "TERM", "ERRRET"},
+		Run: func(c *rules.Ctx) []report.Obligation {
+			return cat(c.PanicIDX("PANIC-IDX", "DOTENV"), c.PanicTA("PANIC-TA", "DOTENV"), c.PanicExpl("PANIC-EXPL", "DOTENV"), c.TERM("TERM", "DOTENV"), c.ERRRET("ERRRET"))
+		},
+	})
+	def("C19", &propertyDef{
+		Decides:    "no package-level variable is written outside init (GLOB); for every function that spawns goroutines: state written by a spawned closure is not touched by the spawner between spawn and Wait nor by a sibling closure without a common mutex (R2), the owner returns Wait()'s error on every path after a spawn (R4), channels sent on from closures have len-derived capacity and one send per closure (R5); mutex-guarded fields are only accessed under the mutex, in constructors or after the join (R3); graph structures are read-only during the walk (RONLY).",
+		NotDecided: "data-race freedom of dependencies (logrus, gojsonschema globals); that each load returns what it would return alone beyond the absence of shared writable state; channel happens-before is not modelled.",
+		Rules:      []string{"GLOB", "FAN", "R3", "RONLY"},
+		Run: func(c *rules.Ctx) []report.Obligation {
+			return cat(c.GLOB("GLOB"), c.FanOut("FAN"), c.R3("R3", "graph", "types"),
+				c.ROnly("RONLY", "graph", []string{"graph.walk"}, map[string]bool{"traversal.status": true, "traversal.results": true}))
+		},
+	})
+	def("C20", &propertyDef{
+		Decides:    "each of the four secret/config marshallers blanks Content on the edge where it must not be rendered and reads the rendered copy afterwards (SEC-1); they exist with value receivers (SEC-2); marshallContent is written in one function, under the explicit option, on a deep copy (SEC-3); the decoder hook moves the carrier key to Content and deletes it (SEC-4); environment values looked up for secrets/configs are stored only under the carrier key resp. `content` (SEC-5); the project renderers do not write through the project (IMM-I1).",
+		NotDecided: "non-occurrence of the value in the bytes (a second struct field, a user extension literally named x-#value, a value present elsewhere in the model); exact reproduction with WithSecretContent.",
+		Rules:      []string{"SEC", "IMM-I1"},
+		Run: func(c *rules.Ctx) []report.Obligation {
+			return cat(c.SEC("SEC"), c.IMMRender("IMM"))
+		},
+	})
 }
